@@ -163,8 +163,8 @@ class ImageBatch(DataTensor):
                         end = start + num + (1 if section < extra else 0)
                         split_grids.append(grids[start:end])
                         start = end
-                elif isinstance(tensor_indices_or_sections, Sequence):
-                    indices = list(tensor_indices_or_sections)
+                elif isinstance(tensor_indices_or_sections, (Sequence, Tensor)):
+                    indices = [int(i) for i in tensor_indices_or_sections]
                     for start, end in zip([0] + indices, indices + [len(grids)]):
                         split_grids.append(grids[start:end])
                 return split_grids
